@@ -7,6 +7,18 @@ from vlib import Check, Stream
 from checks import seqideal
 
 
+def regenerate_vecprims():
+    """facts of qvector.c the vector model is assembled from (translator/vecprims.py): every check
+    whose theorems import the vector model regenerates them, so that none runs on facts that a
+    previous run extracted from a different tree"""
+    from translator import vecprims
+    out = os.path.join(vlib.LEAN, "QlibcModel/Generated/VectorPrims.lean")
+    text = vecprims.render(vecprims.extract(vlib.REPO))
+    if not os.path.exists(out) or open(out).read() != text:
+        open(out, "w").write(text)
+    return [out]
+
+
 class SeqCheck(Check):
     mode = "seq"
 
@@ -52,17 +64,19 @@ class SeqCheck(Check):
                 start = k
                 break
         head, body = ops[start], ops[start + 1:]
+        hbin = self.stream_bin(st)
+        module = None if st.nomodel else (st.module or self.module)
 
         def fails(cand):
             cand = [head] + cand
             if not seqideal.safe(cand, self.mode):
                 return False
             text = "\n".join(cand) + "\n"
-            im, rc, _ = vlib.run_proc([self.hbin], text, timeout=60)
+            im, rc, _ = vlib.run_proc([hbin], text, timeout=60)
             mo = None
-            if os.path.exists(vlib.driver_path()) and self.module:
-                mo, mrc, _ = vlib.run_model(self.module, text, timeout=60)
-            return pred(cand, im, mo)
+            if os.path.exists(vlib.driver_path()) and module:
+                mo, mrc, _ = vlib.run_model(module, text, timeout=60)
+            return pred(cand, im, mo, rc)
         try:
             if not body:
                 return [head]
